@@ -42,8 +42,10 @@ def dominated_by_commit(F, body, site_bb, tx_filter=None):
     return bool(good), good
 
 
-def closure_ok_returns_after_commit(F, closure_body):
-    """every `Ok(..)` value returned by the closure is built after a commit's Ok edge"""
+def closure_ok_returns_after_commit(F, closure_body, allow_false_before=False):
+    """every `Ok(..)` value returned by the closure is built after a commit's Ok edge.
+    With allow_false_before, an `Ok(false)` (constant) may be returned before the commit: the caller must then act only
+    on a true payload (checked by the caller of this helper)."""
     cs = commits(closure_body)
     if not cs:
         return False, "no commit in closure"
@@ -58,11 +60,20 @@ def closure_ok_returns_after_commit(F, closure_body):
             continue
         for s in bl["s"]:
             if s[0] == "A" and s[1] == [0] and s[2][0] == "agg" and isinstance(s[2][1], dict) and s[2][1].get("variant") == "Ok":
-                oks.append(bb)
+                oks.append((bb, s))
     if not oks:
         return False, "no Ok(..) return found"
-    bad = [bb for bb in oks if not closure_body.edges_dominate(edges, bb)]
-    return (not bad), ("Ok return at bb%s not dominated by commit" % bad if bad else "all %d Ok returns follow the commit" % len(oks))
+    bad = []
+    early_false = 0
+    for bb, s in oks:
+        if closure_body.edges_dominate(edges, bb):
+            continue
+        k = op_const(s[2][2][0]) if s[2][2] else None
+        if allow_false_before and k is not None and k.get("t") == "bool" and k.get("v") == 0:
+            early_false += 1
+            continue
+        bad.append(bb)
+    return (not bad), ("Ok return at bb%s not dominated by commit" % bad if bad else "all %d Ok returns follow the commit%s" % (len(oks) - early_false, (" (%d early Ok(false))" % early_false) if early_false else ""))
 
 
 def publish_after_commit(F, G, body, site_call):
